@@ -172,7 +172,7 @@ class SimpleContractSetup(Contract):
         col = lambda name: m.cols[name]
         yield ('C07.contract.mapping.rows', S.eq(m.n, nv))
         yield ('C07.contract.mapping.index', S.forall(nv, lambda j: S.eq(m.index.f(j), j)))
-        yield ('C07.contract.mapping.step', S.forall(nv, lambda j: S.eq(col('time_step').f(j), S.ite(S.lt(j, n), rI.f(j), rI.f(j - n)))))
+        yield ('C07.contract.mapping.step', S.forall(nv, lambda j: S.eq(col('time_step').f(j), S.ite(S.lt(j, n), lambda: rI.f(j), lambda: rI.f(j - n)))))
         yield ('C08.contract.window', S.forall(nv, lambda j: S.and_(S.ge(col('time_step').f(j), 0), S.lt(col('time_step').f(j), T))))
         yield ('C07.contract.mapping.asset', S.forall(nv, lambda j: S.eq(col('asset').f(j), self_obj.get('name'))))
         yield ('C01.nodes.contract', S.forall(nv, lambda j: S.eq(col('node').f(j), self_obj.get('nodes')[0].get('name'))))
@@ -200,7 +200,7 @@ class SimpleContractSetup(Contract):
         rI = ctx['R'].get('__fun__')['I']
         k = z3.Int('menu!k')
         return [z3.ForAll([k], z3.Implies(z3.And(k >= 0, k < ctx['R'].get('T')), rI(k) == rI(0) + k)), ctx['g'].get('T') >= 1], [
-                H.real('wacc') == 0, z3.ForAll([k], ctx['df'](k) == 1)]
+                H.real('wacc') == 0, z3.ForAll([k], ctx['df'](k) == 1), z3.ForAll([k], ctx['g'].get('__fun__')['dt'](k) == 1)]
 
     def native(self, case, P):
         import numpy as np
